@@ -10,53 +10,6 @@ import (
 	"golang.org/x/tools/go/ssa"
 )
 
-// control-flow signals raised with panic()
-type pathAbort struct{ reason string } // infeasible / assume false / unsupported
-type goPanic struct {
-	msg  string
-	site string
-}
-
-type Violation struct {
-	Site  string
-	Kind  string
-	Msg   string
-	Model map[string]string
-	Trace []int
-}
-
-type Exec struct {
-	prog    *ssa.Program
-	solver  *Solver
-	globals map[*ssa.Global]*Value
-	enumTab map[string]map[int64]string // type name -> number -> name
-
-	// per path
-	pc        []*Term
-	known     map[*Term]bool
-	synced    bool
-	prefix    []int
-	pos       int
-	trace     []int
-	nvars     int
-	varNames  []string
-	nobj      int
-	steps     int
-	depth     int
-	siteReach map[string]int
-
-	// exploration
-	work        [][]int
-	Paths       int
-	Aborted     int
-	Unsupported map[string]int
-	Violations  []Violation
-	Discharged  int
-	MaxSteps    int
-	FuncsSeen   map[string]int
-	MapAllOrder bool
-}
-
 type frame struct {
 	fn     *ssa.Function
 	locals map[ssa.Value]Value
@@ -66,120 +19,11 @@ type frame struct {
 	defers []func()
 }
 
-// ---------------------------------------------------------------- path condition
-
-func (ex *Exec) assume(t *Term) {
-	if t == tTrue {
-		return
-	}
-	if t == tFalse {
-		panic(pathAbort{"infeasible"})
-	}
-	if t.Op == "and" {
-		for _, a := range t.Args {
-			ex.assume(a)
-		}
-		return
-	}
-	if v, ok := ex.known[t]; ok {
-		if !v {
-			panic(pathAbort{"infeasible"})
-		}
-		return
-	}
-	ex.known[t] = true
-	ex.known[mkNot(t)] = false
-	ex.pc = append(ex.pc, t)
-	if ex.synced {
-		ex.solver.Assert(t)
-	}
-}
-
-func (ex *Exec) sync() {
-	if ex.synced {
-		return
-	}
-	ex.solver.Reset()
-	for _, t := range ex.pc {
-		ex.solver.Assert(t)
-	}
-	ex.synced = true
-}
-
-// simp applies the facts already on the path.
-func (ex *Exec) simp(t *Term) *Term {
-	if v, ok := ex.known[t]; ok {
-		return mkBool(v)
-	}
-	switch t.Op {
-	case "not":
-		return mkNot(ex.simp(t.Args[0]))
-	case "and":
-		as := make([]*Term, len(t.Args))
-		for i, a := range t.Args {
-			as[i] = ex.simp(a)
-		}
-		return mkAnd(as...)
-	}
-	return t
-}
-
-func (ex *Exec) feasible(t *Term) bool {
-	t = ex.simp(t)
-	if t == tTrue {
-		return true
-	}
-	if t == tFalse {
-		return false
-	}
-	ex.sync()
-	r := ex.solver.Check(t)
-	ex.solver.Pop()
-	return r != "unsat"
-}
-
-// choose makes one decision among alternative constraints.
-func (ex *Exec) choose(alts []*Term) int {
-	if ex.pos < len(ex.prefix) {
-		c := ex.prefix[ex.pos]
-		ex.pos++
-		ex.trace = append(ex.trace, c)
-		ex.assume(alts[c])
-		return c
-	}
-	var feas []int
-	for i, a := range alts {
-		if ex.feasible(a) {
-			feas = append(feas, i)
-		}
-	}
-	if len(feas) == 0 {
-		panic(pathAbort{"infeasible"})
-	}
-	for _, j := range feas[1:] {
-		p := append(append([]int{}, ex.trace...), j)
-		ex.work = append(ex.work, p)
-	}
-	c := feas[0]
-	ex.pos++
-	ex.trace = append(ex.trace, c)
-	ex.assume(alts[c])
-	return c
-}
-
-func (ex *Exec) decideBool(t *Term) bool {
-	t = ex.simp(t)
-	if t.Op == "cb" {
-		return t.B
-	}
-	return ex.choose([]*Term{t, mkNot(t)}) == 0
-}
-
 // ---------------------------------------------------------------- values
 
 func (ex *Exec) newObj(site string) *Obj {
 	ex.nobj++
-	return &Obj{ID: ex.nobj, Site: site}
+	return &Obj{ID: ex.nobj, Site: site, Epoch: ex.epoch}
 }
 
 func (ex *Exec) alloc(t types.Type, site string) Ptr {
@@ -241,18 +85,61 @@ func (ex *Exec) get(fr *frame, v ssa.Value) Value {
 }
 
 func (ex *Exec) global(g *ssa.Global) Ptr {
-	c, ok := ex.globals[g]
-	if !ok {
-		c = new(Value)
-		*c = ex.zero(g.Type().(*types.Pointer).Elem())
-		ex.globals[g] = c
+	if p, ok := ex.globals[g]; ok {
+		return p
 	}
-	return Ptr{C: c, O: &Obj{ID: -1, Site: g.String()}}
+	et := g.Type().(*types.Pointer).Elem()
+	c := new(Value)
+	*c = ex.zero(et)
+	p := Ptr{C: c, O: &Obj{ID: -1 - len(ex.globals), Site: g.String(), Shared: true}}
+	ex.globals[g] = p
+	if g.Pkg != nil && allowedPkg(g.Pkg.Pkg.Path()) {
+		ex.ensureInit(g.Pkg)
+	} else if types.IsInterface(et) {
+		// foreign sentinel (io.EOF, ...): a unique opaque value
+		*c = Iface{T: opaqueType, V: &errAbs{site: g.String(), msg: g.String()}}
+	}
+	return p
+}
+
+// ensureInit runs the package initializer lazily, once per path, in lenient mode
+// (calls that cannot be interpreted return zero values).
+func (ex *Exec) ensureInit(p *ssa.Package) {
+	if ex.pkgInit[p] {
+		return
+	}
+	ex.pkgInit[p] = true
+	fn := p.Func("init")
+	if fn == nil || fn.Blocks == nil {
+		return
+	}
+	ex.inInit++
+	saveEpoch := ex.epoch
+	ex.epoch = 0
+	saveDepth := ex.depth
+	defer func() {
+		ex.inInit--
+		ex.epoch = saveEpoch
+		if r := recover(); r != nil {
+			switch r.(type) {
+			case goPanic, pathAbort:
+				// lenient: generated registration code (protobuf descriptors) cannot be interpreted
+				ex.depth = saveDepth
+			default:
+				panic(r)
+			}
+		}
+	}()
+	fr := &frame{fn: fn, locals: map[ssa.Value]Value{}}
+	ex.run(fr)
 }
 
 func (ex *Exec) load(p Ptr, site string) Value {
 	if p.IsNil() {
 		panic(goPanic{"nil pointer dereference", site})
+	}
+	if ex.mon.lockset != nil {
+		ex.mon.access(ex, p.O, p.C, false, site)
 	}
 	return copyVal(*p.C)
 }
@@ -261,7 +148,13 @@ func (ex *Exec) store(p Ptr, v Value, site string) {
 	if p.IsNil() {
 		panic(goPanic{"nil pointer dereference (store)", site})
 	}
-	*p.C = copyVal(v)
+	if p.O != nil && p.O.Frozen {
+		ex.mon.frozenWrite(ex, p.O, site)
+	}
+	if ex.mon.lockset != nil {
+		ex.mon.access(ex, p.O, p.C, true, site)
+	}
+	assignCell(p.C, v)
 }
 
 // equality as a term (no forking)
@@ -310,6 +203,9 @@ func (ex *Exec) eqTerm(a, b Value, t types.Type) *Term {
 	case *Closure:
 		y, _ := b.(*Closure)
 		return mkBool(x == nil && y == nil)
+	case TimeVal:
+		y := b.(TimeVal)
+		return mkAnd(mkEq(intTerm(x.Sec), intTerm(y.Sec)), mkEq(intTerm(x.Nsec), intTerm(y.Nsec)))
 	case *ssa.Function:
 		return mkBool(false)
 	case nil:
@@ -321,6 +217,9 @@ func (ex *Exec) eqTerm(a, b Value, t types.Type) *Term {
 		}
 		if !types.Identical(x.T, y.T) {
 			return tFalse
+		}
+		if _, ok := x.V.(absInvoker); ok {
+			return mkBool(x.V == y.V)
 		}
 		return ex.eqTerm(x.V, y.V, x.T)
 	case Struct:
@@ -339,6 +238,9 @@ func (ex *Exec) eqTerm(a, b Value, t types.Type) *Term {
 		}
 		return mkAnd(cs...)
 	}
+	if _, ok := a.(absInvoker); ok {
+		return mkBool(a == b)
+	}
 	panic(fmt.Sprintf("eqTerm: unsupported %T", a))
 }
 
@@ -351,6 +253,36 @@ func (ex *Exec) binop(op token.Token, a, b Value, t types.Type, site string) Val
 	}
 	_, asym := a.(*Term)
 	_, bsym := b.(*Term)
+	if isBoolType(t) {
+		x, y := boolTerm(a), boolTerm(b)
+		switch op {
+		case token.AND, token.LAND:
+			return lower(mkAnd(x, y))
+		case token.OR, token.LOR:
+			return lower(mkOr(x, y))
+		}
+	}
+	if isFloatType(t) && !asym && !bsym {
+		x, y := a.(float64), b.(float64)
+		switch op {
+		case token.ADD:
+			return x + y
+		case token.SUB:
+			return x - y
+		case token.MUL:
+			return x * y
+		case token.QUO:
+			return x / y
+		case token.LSS:
+			return x < y
+		case token.LEQ:
+			return x <= y
+		case token.GTR:
+			return x > y
+		case token.GEQ:
+			return x >= y
+		}
+	}
 	if isStringType(t) {
 		if !asym && !bsym {
 			x, y := a.(string), b.(string)
@@ -429,6 +361,19 @@ func (ex *Exec) binop(op token.Token, a, b Value, t types.Type, site string) Val
 			return lower(mkArith("+", x, y))
 		case token.SUB:
 			return lower(mkArith("-", x, y))
+		case token.MUL:
+			if x.Op == "ci" || y.Op == "ci" {
+				return lower(mkArith("*", x, y))
+			}
+		case token.QUO, token.REM:
+			// Go truncates toward zero; SMT div/mod floor. Supported for a positive constant divisor.
+			if y.Op == "ci" && y.I > 0 {
+				nonneg := mkIntCmp(">=", x, mkInt(0))
+				if op == token.QUO {
+					return lower(mkIte(nonneg, mkArith("div", x, y), mkArith("-", mkInt(0), mkArith("div", mkArith("-", mkInt(0), x), y))))
+				}
+				return lower(mkIte(nonneg, mkArith("mod", x, y), mkArith("-", mkInt(0), mkArith("mod", mkArith("-", mkInt(0), x), y))))
+			}
 		case token.LSS:
 			return lower(mkIntCmp("<", x, y))
 		case token.LEQ:
@@ -486,81 +431,147 @@ func (ex *Exec) callValue(fv Value, args []Value, site string) Value {
 		if f == nil {
 			panic(goPanic{"call of nil func", site})
 		}
-		if f.Fn == nil { // abstract context.Value(key)
-			for c := f.Env[0].(*ctxAbs); c != nil; c = c.parent {
-				if c.key != nil && ex.eqTerm(c.key, args[0], nil) == tTrue {
-					return c.val
-				}
-			}
-			return Iface{}
-		}
 		return ex.callFn(f.Fn, args, f.Env, site)
+	case *nativeFn:
+		return f.f(ex, args, site)
 	}
 	panic(fmt.Sprintf("callValue: %T", fv))
 }
 
-func (ex *Exec) callFn(fn *ssa.Function, args []Value, env []Value, site string) Value {
-	name := fn.String()
+// nativeFn is an engine-implemented function value.
+type nativeFn struct {
+	name string
+	f    func(ex *Exec, args []Value, site string) Value
+}
+
+func fnKey(fn *ssa.Function) string {
 	if fn.Origin() != nil {
-		name = fn.Origin().String()
+		return fn.Origin().String()
 	}
+	return fn.String()
+}
+
+func fnPkgPath(fn *ssa.Function) string {
+	if pk := fn.Package(); pk != nil {
+		return pk.Pkg.Path()
+	}
+	if o := fn.Origin(); o != nil && o.Package() != nil {
+		return o.Package().Pkg.Path()
+	}
+	if fn.Signature.Recv() != nil {
+		t := fn.Signature.Recv().Type()
+		if p, ok := t.(*types.Pointer); ok {
+			t = p.Elem()
+		}
+		if n, ok := t.(*types.Named); ok && n.Obj().Pkg() != nil {
+			return n.Obj().Pkg().Path()
+		}
+	}
+	if fn.Parent() != nil {
+		return fnPkgPath(fn.Parent())
+	}
+	return ""
+}
+
+func (ex *Exec) callFn(fn *ssa.Function, args []Value, env []Value, site string) Value {
+	name := fnKey(fn)
 	if h, ok := intrinsics[name]; ok {
+		ex.res.stubs[name]++
 		return h(ex, fn, args, site)
 	}
 	if fn.Name() == "ProtoReflect" && fn.Signature.Recv() != nil {
 		if pt, ok := fn.Signature.Recv().Type().(*types.Pointer); ok {
 			if nm, ok := pt.Elem().(*types.Named); ok {
+				ex.res.stubs["ProtoReflect"]++
 				return Iface{T: absType, V: &protoMsg{ptr: args[0].(Ptr), named: nm}}
 			}
 		}
 	}
-	if fn.Blocks == nil {
-		ex.Unsupported[name]++
-		panic(pathAbort{"unsupported: external " + name})
-	}
-	if pk := fn.Package(); pk != nil || fn.Origin() != nil {
-		p := ""
-		if pk != nil {
-			p = pk.Pkg.Path()
-		} else if fn.Origin().Package() != nil {
-			p = fn.Origin().Package().Pkg.Path()
-		}
-		if !allowedPkg(p) {
-			ex.Unsupported[name]++
-			panic(pathAbort{"unsupported: callee " + name})
+	if fn.Name() == "String" && fn.Signature.Recv() != nil {
+		if nm, ok := fn.Signature.Recv().Type().(*types.Named); ok && nm.Obj().Pkg() != nil && strings.HasSuffix(nm.Obj().Pkg().Path(), "protobom/pkg/sbom") {
+			if _, isEnum := ex.sh.enumTab[nm.Obj().Name()]; isEnum {
+				ex.res.stubs["enum.String"]++
+				return ex.enumString(nm.Obj().Name(), args[0])
+			}
 		}
 	}
-	ex.FuncsSeen[name]++
+	if fn.Name() == "init" && fn.Synthetic != "" && fn.Pkg != nil && fn.Signature.Recv() == nil && fn.Parent() == nil {
+		// dependency initializers run lazily, on first access to one of their package-level variables
+		return nil
+	}
+	p := fnPkgPath(fn)
+	if fn.Blocks == nil || !allowedPkg(p) {
+		if ex.inInit > 0 {
+			return ex.zeroResult(fn.Signature)
+		}
+		ex.res.unsupported[name]++
+		panic(pathAbort{"unsupported: callee " + name})
+	}
+	ex.res.funcs[name]++
 	ex.depth++
-	if ex.depth > 200 {
-		panic(pathAbort{"unwind: call depth"})
+	if ex.depth > ex.sh.cfg.MaxDepth {
+		panic(pathAbort{"unwind: call depth at " + name})
 	}
-	defer func() { ex.depth-- }()
-	fr := &frame{fn: fn, locals: map[ssa.Value]Value{}, env: env}
+	fr := &frame{fn: fn, locals: make(map[ssa.Value]Value, 16), env: env}
 	for i, p := range fn.Params {
 		fr.locals[p] = args[i]
 	}
-	return ex.run(fr)
+	r := ex.run(fr)
+	ex.depth--
+	return r
+}
+
+func (ex *Exec) zeroResult(sig *types.Signature) Value {
+	switch sig.Results().Len() {
+	case 0:
+		return nil
+	case 1:
+		return ex.zero(sig.Results().At(0).Type())
+	}
+	return ex.zero(sig.Results())
+}
+
+var allowedPkgs = map[string]bool{
+	"sort": true, "slices": true, "maps": true, "cmp": true, "unicode/utf8": true, "unicode": true,
+	"github.com/CycloneDX/cyclonedx-go":               true,
+	"github.com/spdx/tools-golang/spdx/v2/common":     true,
+	"github.com/spdx/tools-golang/spdx/v2/v2_3":       true,
+	"github.com/spdx/tools-golang/spdx":               true,
+	"github.com/spdx/tools-golang/json":               true,
+	"github.com/spdx/tools-golang/convert":            true,
+	"google.golang.org/protobuf/types/known/timestamppb": true,
+	"sigs.k8s.io/release-utils/version":               true,
 }
 
 func allowedPkg(p string) bool {
 	if strings.HasPrefix(p, "github.com/protobom/protobom") {
 		return true
 	}
-	switch p {
-	case "sort", "slices", "strings", "maps", "unicode/utf8", "cmp", "github.com/CycloneDX/cyclonedx-go":
-		return true
-	}
-	return false
+	return allowedPkgs[p]
 }
 
 func (ex *Exec) run(fr *frame) (result Value) {
 	fr.block = fr.fn.Blocks[0]
+	defer func() {
+		// run pending defers while a Go panic unwinds through this frame (recover is not modelled)
+		if len(fr.defers) > 0 {
+			if r := recover(); r != nil {
+				if _, isGo := r.(goPanic); isGo {
+					ds := fr.defers
+					fr.defers = nil
+					for i := len(ds) - 1; i >= 0; i-- {
+						ds[i]()
+					}
+				}
+				panic(r)
+			}
+		}
+	}()
 	for {
 		var next *ssa.BasicBlock
 		for _, ins := range fr.block.Instrs {
 			ex.steps++
-			if ex.steps > ex.MaxSteps {
+			if ex.steps > ex.sh.cfg.MaxSteps {
 				panic(pathAbort{"unwind: step budget"})
 			}
 			switch in := ins.(type) {
@@ -595,12 +606,13 @@ func (ex *Exec) run(fr *frame) (result Value) {
 					next = fr.block.Succs[1]
 				}
 			case *ssa.Panic:
-				panic(goPanic{fmt.Sprintf("panic(%v)", ex.get(fr, in.X)), ex.pos2(in)})
+				panic(goPanic{fmt.Sprintf("panic(%v)", describe(ex.get(fr, in.X))), ex.pos2(in)})
 			case *ssa.RunDefers:
-				for i := len(fr.defers) - 1; i >= 0; i-- {
-					fr.defers[i]()
-				}
+				ds := fr.defers
 				fr.defers = nil
+				for i := len(ds) - 1; i >= 0; i-- {
+					ds[i]()
+				}
 			default:
 				ex.exec(fr, ins)
 			}
@@ -609,7 +621,30 @@ func (ex *Exec) run(fr *frame) (result Value) {
 	}
 }
 
+func describe(v Value) string {
+	switch x := v.(type) {
+	case Iface:
+		return describe(x.V)
+	case *errAbs:
+		return fmt.Sprint(x.msg)
+	case string:
+		return x
+	case *Term:
+		return "<symbolic>"
+	}
+	return fmt.Sprintf("%T", v)
+}
+
 func (ex *Exec) pos2(in ssa.Instruction) string {
+	if s, ok := ex.posCache[in]; ok {
+		return s
+	}
+	s := ex.pos2slow(in)
+	ex.posCache[in] = s
+	return s
+}
+
+func (ex *Exec) pos2slow(in ssa.Instruction) string {
 	p := ex.prog.Fset.Position(in.Pos())
 	if !p.IsValid() {
 		return in.Parent().String()
@@ -722,6 +757,12 @@ func (ex *Exec) exec(fr *frame, ins ssa.Instruction) {
 		if m == nil {
 			panic(goPanic{"assignment to entry in nil map", ex.pos2(in)})
 		}
+		if m.O != nil && m.O.Frozen {
+			ex.mon.frozenWrite(ex, m.O, ex.pos2(in))
+		}
+		if ex.mon.lockset != nil {
+			ex.mon.access(ex, m.O, nil, true, ex.pos2(in))
+		}
 		k := ex.get(fr, in.Key)
 		v := copyVal(ex.get(fr, in.Value))
 		kt := in.Map.Type().Underlying().(*types.Map).Key()
@@ -735,6 +776,9 @@ func (ex *Exec) exec(fr *frame, ins ssa.Instruction) {
 		switch m := x.(type) {
 		case *Map:
 			mt := in.X.Type().Underlying().(*types.Map)
+			if m != nil && ex.mon.lockset != nil {
+				ex.mon.access(ex, m.O, nil, false, ex.pos2(in))
+			}
 			i := ex.mapFind(m, ex.get(fr, in.Index), mt.Key())
 			var v Value
 			if i >= 0 {
@@ -762,8 +806,11 @@ func (ex *Exec) exec(fr *frame, ins ssa.Instruction) {
 		case *Map:
 			it := &MapIter{}
 			if m != nil {
+				if ex.mon.lockset != nil {
+					ex.mon.access(ex, m.O, nil, false, ex.pos2(in))
+				}
 				it.Entries = append(it.Entries, m.Entries...)
-				if ex.MapAllOrder && len(it.Entries) > 1 {
+				if ex.mapOrder == mapAll && len(it.Entries) > 1 {
 					it.Entries = ex.permute(it.Entries)
 				}
 			}
@@ -891,9 +938,6 @@ func (ex *Exec) resolve(fr *frame, cc *ssa.CallCommon, site string) (fv Value, r
 		if a, ok := iv.V.(absInvoker); ok {
 			return &absCall{recv: a, method: cc.Method.Name()}, nil
 		}
-		if c, ok := iv.V.(*ctxAbs); ok && cc.Method.Name() == "Value" {
-			return &Closure{Fn: nil, Env: []Value{c}}, nil
-		}
 		m := ex.prog.LookupMethod(iv.T, cc.Method.Pkg(), cc.Method.Name())
 		if m == nil {
 			panic(pathAbort{"unsupported: no method " + cc.Method.Name() + " on " + iv.T.String()})
@@ -929,6 +973,11 @@ func (ex *Exec) convert(v Value, from, to types.Type) Value {
 			return string(rune(i))
 		}
 	case isStringType(from):
+		if t, ok := v.(*Term); ok {
+			if _, ok := to.Underlying().(*types.Slice); ok {
+				return BytesView{t}
+			}
+		}
 		if sl, ok := to.Underlying().(*types.Slice); ok {
 			if s, ok := v.(string); ok && isIntType(sl.Elem()) {
 				arr := make([]Value, len(s))
@@ -938,6 +987,9 @@ func (ex *Exec) convert(v Value, from, to types.Type) Value {
 				return Slice{Arr: arr, Len: len(s), Cap: len(s), O: ex.newObj("conv")}
 			}
 		}
+	}
+	if bv, ok := v.(BytesView); ok && isStringType(to) {
+		return bv.t
 	}
 	if _, ok := from.Underlying().(*types.Slice); ok && isStringType(to) {
 		s := v.(Slice)
@@ -1052,6 +1104,9 @@ func (ex *Exec) builtin(b *ssa.Builtin, args []Value, cc *ssa.CallCommon, site s
 			return s
 		}
 		if s.Len+len(add) <= s.Cap {
+			if s.O != nil && s.O.Frozen {
+				ex.mon.frozenWrite(ex, s.O, site+" (append into spare capacity)")
+			}
 			for i, v := range add {
 				s.Arr[s.Off+s.Len+i] = v
 			}
@@ -1094,6 +1149,12 @@ func (ex *Exec) builtin(b *ssa.Builtin, args []Value, cc *ssa.CallCommon, site s
 		if m == nil {
 			return nil
 		}
+		if m.O != nil && m.O.Frozen {
+			ex.mon.frozenWrite(ex, m.O, site)
+		}
+		if ex.mon.lockset != nil {
+			ex.mon.access(ex, m.O, nil, true, site)
+		}
 		kt := cc.Args[0].Type().Underlying().(*types.Map).Key()
 		if i := ex.mapFind(m, args[1], kt); i >= 0 {
 			m.Entries = append(append([]mapEntry{}, m.Entries[:i]...), m.Entries[i+1:]...)
@@ -1105,34 +1166,15 @@ func (ex *Exec) builtin(b *ssa.Builtin, args []Value, cc *ssa.CallCommon, site s
 	panic(pathAbort{"unsupported: builtin " + b.Name() + fmt.Sprintf(" %T", args[0])})
 }
 
+
 // permute chooses an iteration order through decisions (selection without replacement).
 func (ex *Exec) permute(es []mapEntry) []mapEntry {
 	rest := append([]mapEntry{}, es...)
 	var out []mapEntry
 	for len(rest) > 1 {
-		alts := make([]*Term, len(rest))
-		for i := range alts {
-			alts[i] = tTrue
-		}
 		c := ex.chooseFree(len(rest))
 		out = append(out, rest[c])
 		rest = append(rest[:c], rest[c+1:]...)
 	}
 	return append(out, rest...)
-}
-
-// chooseFree is an unconstrained n-way decision.
-func (ex *Exec) chooseFree(n int) int {
-	if ex.pos < len(ex.prefix) {
-		c := ex.prefix[ex.pos]
-		ex.pos++
-		ex.trace = append(ex.trace, c)
-		return c
-	}
-	for j := 1; j < n; j++ {
-		ex.work = append(ex.work, append(append([]int{}, ex.trace...), j))
-	}
-	ex.pos++
-	ex.trace = append(ex.trace, 0)
-	return 0
 }
